@@ -297,6 +297,7 @@ let run_c01 ic =
         match model_prepared c with
         | Err e -> incr n_dis; report c.id false [] [] ["planning model fails with " ^ string_of_err e ^ " but the package was built"]
         | Ok cs ->
+          if not (envelope_C01 cs) then incr n_skip;
           let obs = List.filter_map pentry_of_oent c.pents in
           let odd = List.length obs <> List.length c.pents in
           let model = payload_of f c.mtime cs in
